@@ -2,12 +2,12 @@ SPECIFICATION Spec
 CONSTANTS
   MaxLen = 4
   StepMode = TRUE
-  DeclSet = {"id", "strna", "url", "list", "call"}
-  CpropSet = {"nl", "na"}
-  CmtSet = {"one", "multi", "na"}
+  DeclSet = {"id", "pna", "strna"}
+  CpropSet = {"na"}
+  CmtSet = {"na"}
   RuleSet = {"asc", "na"}
-  AtAttr = {"-"}
-  Extra = {}
+  AtAttr = {"-", "na", "name"}
+  Extra = {"sup", "kf", "imp"}
 INVARIANT DesignAccepted
 INVARIANT StepAccepted
 CHECK_DEADLOCK FALSE
